@@ -8,8 +8,8 @@ SPEC = dict(
                "z_pack_relative_relocs; initial-exec slots of locally defined TLS variables (need the full Layout) are outside; "
                "relocation-site RELR/RELA accounting (apply_relocation) is outside.",
     overlays=[(W, "harness/libwild/elf_writer_c23.rs")],
-    jobs=3,
-    # ~6 min and ~10 GB each: three representative (output kind, RELR) pairs per change, all ten in the thorough tier
+    jobs=2,
+    # ~6 min and 10-16 GB each: three representative (output kind, RELR) pairs per change, all ten in the thorough tier
     harnesses=[dict(fn=f"c23_alloc_{n}", file=W, timeout=1500, tiers=t) for n, t in [
         ("dyn_nonreloc_relr", ["quick", "thorough"]), ("dyn_pie_relr", ["quick", "thorough"]), ("shared", ["quick", "thorough"]),
         ("static_nonreloc", ["thorough"]), ("static_nonreloc_relr", ["thorough"]), ("static_pie", ["thorough"]),
